@@ -3,6 +3,7 @@
 from __future__ import annotations
 
 from asyncio import (
+    CancelledError,
     Event,
     Future,
     Queue,
@@ -11,6 +12,7 @@ from asyncio import (
     gather,
     get_running_loop,
     isfuture,
+    wait,
 )
 from typing import TYPE_CHECKING, Any, NamedTuple, cast
 
@@ -76,6 +78,7 @@ class StreamItemQueue:
         self._producer_cancelled = False
         self._pending_futures: set[Future[WorkResult]] = set()
         self._aborted = False
+        self._failed = False
         self._finished = False
         self._stopped = False
         if eager:
@@ -102,6 +105,7 @@ class StreamItemQueue:
             # settle the pending item futures and clean up the source
             # before delivering the failure
             self._aborted = True
+            self._failed = True
             await self._settle_pending()
             on_abort = self._on_abort
             if on_abort is not None:
@@ -141,8 +145,16 @@ class StreamItemQueue:
             entry = await entries.get() if held is None else held
             held = None
             if isfuture(entry):
+                if not entry.done():
+                    await wait((entry,))
+                if entry.cancelled():
+                    if self._failed:
+                        # The item was still pending when the source failed and
+                        # has been cancelled; skip it to deliver the failure.
+                        continue
+                    raise CancelledError
                 try:
-                    entry = await entry
+                    entry = entry.result()
                 except Exception:
                     await self._cleanup()
                     raise
@@ -170,7 +182,7 @@ class StreamItemQueue:
                 if isfuture(next_entry):
                     try:
                         next_entry = next_entry.result()
-                    except Exception:
+                    except (Exception, CancelledError):
                         held = next_entry  # re-raise when delivered as head
                         break
                 batch.append(next_entry)
